@@ -109,7 +109,7 @@ PROPS["C06"] = dict(
          "BitVector / SparseVector / RLVector of <= N bits. For each x: bytes written == 8*size_in_elements == size_in_bytes; load consumes exactly those bytes, equals x, re-serializes identically and answers the query sets of C01-C04; "
          "also through 1/3/7/8/9-byte short-read readers and 1/3/7-byte short-write sinks; size_by_params for Raw/IntVector over boundary (capacity, width) sets; every wavelet matrix and core of small scopes (levels whose supports differ in size); values of many megabytes around the piece sizes a loader might use (2^17+3 and 2^20+3 elements, 2^16+1 and 2^20+1 pairs, 2^20+5 and 2^23+1 bytes, 2^21 37-bit items, a bitvector of 2^26+70 bits with all supports). Every ordered pair (thorough: every triple over 24 values) "
          "written back to back loads in sequence with the reader ending exactly at the end. Non-trivial = more than one element; distinct by hashed descriptor / descriptor tuple.",
-    bounds={"quick": "158-value catalogue, N=10, 24 964 pairs", "thorough": "extended catalogue (all widths, all byte lengths, multi-superblock vectors), N=18, all pairs, 46 656 triples"},
+    bounds={"quick": "158-value catalogue, N=12, 24 964 pairs", "thorough": "extended catalogue (all widths, all byte lengths, multi-superblock vectors), N=18, all pairs, 46 656 triples"},
     assumptions=[HOOK_ASSUMPTION, MODEL_ASSUMPTION],
 )
 MANIFEST_TEXT["C06"] = dict(engine="E-input", design_ref="DESIGN.md §4 C06",
@@ -202,7 +202,7 @@ PROPS["C18"] = dict(
          "(writable if mutable), as_ref() equals the file content and len() = size/8; missing / non-multiple-of-8 files give Err and leave nothing mapped; an empty file gives Err or a valid empty map; after Drop no page of the dropped range is still mapped to the file and other live maps are intact; "
          "every map sits between two PROT_NONE guard pages placed by the harness (one is placed first so that the library's mapping lands directly below it) and both guards must survive the drop, so an unmap that is one page too long or too short is seen deterministically; with no live "
          "handle no test file is mapped; the process never holds more open descriptors to a test file than it has live maps of it (so a dropped map keeps nothing of the file open); a write is visible through every live map of the file and in the file after the map is dropped. A state is a history; all histories are distinct by construction.",
-    bounds={"quick": "depth 1..3, 13 files: 24 702 histories", "thorough": "depth 1..4 over 12 files + depth 5 over 7 files: 1 752 170 histories"},
+    bounds={"quick": "depth 1..3 over 13 files + depth 4 over 7 files: 96 911 histories", "thorough": "depth 1..4 over 13 files + depth 5 over 7 files"},
     require_counters={},
     timeout={"quick": 900, "thorough": 4 * 3600},
     assumptions=[HOOK_ASSUMPTION, "the address space is observed through /proc/self/maps (Linux)", "the only OS refusal provoked is the zero-length mapping"],
@@ -219,12 +219,12 @@ PROPS["C09"] = dict(
          "select_zero_iter, predecessor, successor; Iterator::nth / nth_back(k) for k in A(remaining) on every iterator kind after 0, 1 and 2 consumed items from the front and after 1 and 2 items consumed from the back (result, exact size hint afterwards, the next items); wavelet matrices over small "
          "alphabets with A(.) x (present, absent, outside-the-alphabet values incl. u64::MAX) in every position of rank/select/select_iter/inverse_select/predecessor/successor/contains, and WMCore map_down/map_down_with/map_up_with over all "
          "(index, value) and map_down_with_two_positions over all (index, index, value) - the pair variant must answer like two single queries; constructors with widths {0,1,13,64,65,2^20,MAX}, SparseBuilder::new with ones > universe, RLBuilder::try_set with start+len overflowing. No call may panic. Distinct by hashed structure.",
-    bounds={"quick": "N=8; WM scopes (1,6) (2,4) (3,3) (4,2)", "thorough": "N=16; WM scopes (1,10) (2,6) (3,4) (4,3)"},
+    bounds={"quick": "N=10; WM scopes (1,6) (2,4) (3,3) (4,2)", "thorough": "N=16; WM scopes (1,10) (2,6) (3,4) (4,3)"},
     assumptions=[HOOK_ASSUMPTION, MODEL_ASSUMPTION, "documented 'may panic' cases (get(i >= len), with_len whose len*width overflows) are not checked; WMCore with values >= 2^width is only required not to panic"],
 )
 MANIFEST_TEXT["C09"] = dict(engine="E-input", design_ref="DESIGN.md §4 C09",
     technique="bounded exhaustive input enumeration on the real code with the extreme-argument set A(.) in every argument position, against reference models, in three build configurations",
-    level_text="All structures up to 8/16 bits plus multi-block representatives x every argument position x A(.), including Iterator::nth/nth_back beyond the remainder and the core mapping for any (index, value); decided with overflow checks on (no panic) and off (same answers).",
+    level_text="All structures up to 10/16 bits plus multi-block representatives x every argument position x A(.), including Iterator::nth/nth_back beyond the remainder and the core mapping for any (index, value); decided with overflow checks on (no panic) and off (same answers).",
     level_note="Trusts the reference models; larger structures are represented by 9 instances only.")
 
 PROPS["C10"] = dict(
@@ -248,7 +248,7 @@ PROPS["C15"] = dict(
          "for universes 64..2^20 (the low width the parameter rule picks) and for universes 2^63, usize::MAX-1, usize::MAX with values at both ends; multisets with 100 000 (thorough 300 000) copies of one value before / after / between other values and behind thousands of empty buckets (long select superblocks in the upper part), queried at the structural edges; SparseVector::try_from_iter over EVERY sequence (sorted or not) of length <= L over 0..A. Checked: len, count_ones, is_multiset, select / select_iter at every rank and A(.), "
          "get, rank, successor (first occurrence) and predecessor (last occurrence) as full iterators at every position and A(.), one_iter and the bit iterator forward, reversed and at every forward/backward split point (items taken from the front first, and from the back first); try_from_iter accepts exactly "
          "the non-decreasing sequences, sizes the universe to last+1 and equals the multiset builder's vector. Zero-side queries are not checked (documented as not meaningful for multisets). Non-trivial = has duplicates or is a try_from_iter sequence.",
-    bounds={"quick": "U=7, K=8; L=5 over 0..6 (9 331 sequences)", "thorough": "U=9, K=10; L=7 over 0..8"},
+    bounds={"quick": "U=8, K=9; L=5 over 0..6 (9 331 sequences)", "thorough": "U=9, K=10; L=7 over 0..8"},
     require_counters={"quick": {"overfull_cases": 10, "cases_with_duplicates": 100}, "thorough": {"overfull_cases": 10, "cases_with_duplicates": 100}},
     assumptions=[HOOK_ASSUMPTION, "reference = sorted Vec<usize> with linear scans"],
 )
@@ -313,7 +313,7 @@ PROPS["C07"] = dict(
          "stored ones = actual, exactly one bucket per universe slice, w >= 1, 4-bit units with whole runs per 64-unit block, zero padding only in closed blocks and none in the final block, maximal runs, samples per block at minimal width, data width 4, "
          "wavelet-matrix width = bit_len(max), first[v] = first position or len, minimal width of first). Direction 2: files encoded by the codec with every admissible writer choice - all support structures absent, EVERY low width 1..bit_len(n)+1 for "
          "sparse vectors, every sample width from minimal to 64 for run-length vectors - and every subset of support structures in embedded bitvectors - must load and answer the full query sets (and equal the built value where the document determines the content). Greedy block packing is counted, not required. Distinct by hashed case.",
-    bounds={"quick": "N=12 (direction 1), 10 (direction 2); WM scopes (1,8) (2,5) (3,3) (4,2)", "thorough": "N=20 / 16; WM scopes (1,9) (2,6) (3,4) (4,3); all 64 sample widths for every vector"},
+    bounds={"quick": "N=14 (direction 1), 12 (direction 2); WM scopes (1,8) (2,5) (3,3) (4,2)", "thorough": "N=20 / 16; WM scopes (1,9) (2,6) (3,4) (4,3); all 64 sample widths for every vector"},
     require_counters={"quick": {"direction1_library_written_files": 1000, "direction2_document_written_files": 1000}, "thorough": {"direction1_library_written_files": 1000, "direction2_document_written_files": 1000}},
     assumptions=[HOOK_ASSUMPTION, MODEL_ASSUMPTION, "my reading of SERIALIZATION.md as implemented in spec.rs; rank/select support structures are implementation-dependent per the document and only checked for whole elements"],
 )
